@@ -488,6 +488,10 @@ func cmdCheck(args []string) int {
 			"machine integers are mathematical integers with declared ranges (no wrap-around) except where a conversion narrows",
 			"termination is not proved; panics inside dependencies are not modelled",
 			"method receivers are non-nil; values are well-typed",
+			"slices of different element types never share a backing allocation; the backing array of a slice is an allocation of its own",
+			"a callee without an assigns clause does not change ghost fields that only the contract under verification writes (no call-backs into the function under verification)",
+			"decoders (json/yaml Unmarshal) write only into the allocation of their target, function-local maps and fresh memory",
+			"contract names that no longer exist are bound by position (baseline/bindings.json); contracts of functions that no longer exist are skipped (baseline/targets.json) - both reported as notes",
 		}, cfg.Assumptions...),
 	}
 	if !*noEvidence {
